@@ -198,6 +198,9 @@ func (w *World) monRedirect(rec *CheckRec) {
 		}
 	}
 	if newSID != "" {
+		// "until a new interactive login completes": a re-issued id starts a new login (the re-issue
+		// itself is C05's violation), so the old logout no longer condemns it.
+		delete(w.loggedOut, newSID)
 		if _, seen := w.issuedSIDs[newSID]; !seen {
 			w.issuedSIDs[newSID] = len(w.issuedSIDs) + 1
 		}
@@ -440,11 +443,20 @@ func (w *World) monOK(rec *CheckRec) {
 	viol := func(sig, detail string) {
 		w.violate("C01", sig, fmt.Sprintf("check #%d %s%s answered OK: %s", rec.N, rec.Host, rec.Path, detail))
 	}
-	// C09: OK after a completed logout of this session
+	// C09: OK after a completed logout of this session. A check invoked after the logout was answered
+	// is always judged. A check that was in flight when the logout was answered is judged when its OK
+	// rests on work it finished after the logout (token refresh: the case the property names); an
+	// in-flight check that merely read the session before its removal may be linearised before the
+	// logout (no implementation can close the gap between its last look and its answer leaving).
 	if lo, ok := w.loggedOut[rec.SID]; ok && rec.SID != "" && rec.Seq1 > lo {
-		w.violate("C09", "ok-after-logout:"+w.c09Cause(rec, lo), fmt.Sprintf("check #%d (invoked seq %d, returned seq %d) answered OK for session %s whose logout was answered at seq %d", rec.N, rec.Seq0, rec.Seq1, w.canon(rec.SID), lo))
-		if rec.Seq0 > lo {
+		switch {
+		case rec.Seq0 > lo:
+			w.violate("C09", "ok-after-logout:"+w.c09Cause(rec, lo), fmt.Sprintf("check #%d (invoked seq %d, returned seq %d) answered OK for session %s whose logout was answered at seq %d", rec.N, rec.Seq0, rec.Seq1, w.canon(rec.SID), lo))
 			viol("logged-out-session", "the session was logged out before this request was made")
+		case len(rec.TokenReqs) > 0:
+			w.violate("C09", "in-flight-refresh-answered-ok-after-logout", fmt.Sprintf("check #%d was in flight when the logout of session %s was answered (seq %d), finished its token refresh afterwards and answered OK at seq %d", rec.N, w.canon(rec.SID), lo, rec.Seq1))
+		default:
+			w.probe("in-flight-read-linearised-before-logout")
 		}
 	}
 	if rec.SID == "" {
